@@ -5,11 +5,13 @@ import "verif/internal/eng"
 func init() {
 	register(&Property{
 		ID: "C01",
-		Explanation: "Decides the structural core of the round trip, not equality of restored bytes and attributes: (nodetype-exhaustive) fs.nodeTypeFromFileInfo yields file, dir, symlink, dev, chardev, fifo and socket (plus irregular/invalid, no type unknown to this check), and both fs.NodeCreateAt (restore) and fs.nodeFillExtendedStat (backup) have their own case for each of the seven and return an error when no case matches (specialised evaluation with every type comparison false); (node-field-flow) every serialised field of data.Node (enumerated from the struct; reasons recorded for ChangeTime, Error, Path, LinkTargetRaw) is stored by the backup side (fs.nodeFromFileInfo and its callees in package fs, package archiver) and read by the restore side (fs.NodeCreateAt, fs.NodeRestoreMetadata and their callees in package fs, package restorer) — a recorded attribute nobody restores, or a restored attribute nobody records, is a violation; (restore-passes) Restorer.RestoreTo writes file content only after the first traversal succeeded and starts the second traversal only after restoreFiles returned nil; restoreNodeMetadataTo is called by the second traversal's visitors only and files are scheduled by the first only, so no content is written after metadata was applied; (metadata-order) fs.nodeRestoreMetadata changes the owner before it writes extended attributes and before chmod (a later chown would drop security.capability and clear setuid/setgid), writes extended attributes and timestamps before chmod (a read-only mode would block them), and no step is skipped because an earlier one failed — added after a seeded change that moved lchown behind the xattrs; (xattrs-exact) where attributes are restored by name, every successful return of nodeRestoreExtendedAttributes lies behind the listing of the target's attributes, and an attribute is removed only if it is not among those recorded — also for nodes that record none (added after a seeded change that returned early for them, keeping inherited ACL attributes); (content-order, C17) chunk IDs are recorded in read order; (marshal-siblings, C41) names and link targets survive encoding. Not decided: equality of content, modes, times, ownership, xattrs and hard-link grouping after a real round trip on every platform, concurrency settings and pack sizes.",
+		Explanation: "Decides the structural core of the round trip, not equality of restored bytes and attributes: (nodetype-exhaustive) fs.nodeTypeFromFileInfo yields file, dir, symlink, dev, chardev, fifo and socket (plus irregular/invalid, no type unknown to this check), and both fs.NodeCreateAt (restore) and fs.nodeFillExtendedStat (backup) have their own case for each of the seven and return an error when no case matches (specialised evaluation with every type comparison false); (node-field-flow) every serialised field of data.Node (enumerated from the struct; reasons recorded for ChangeTime, Error, Path, LinkTargetRaw) is stored by the backup side (fs.nodeFromFileInfo and its callees in package fs, package archiver) and read by the restore side (fs.NodeCreateAt, fs.NodeRestoreMetadata and their callees in package fs, package restorer) — a recorded attribute nobody restores, or a restored attribute nobody records, is a violation; (restore-passes) Restorer.RestoreTo writes file content only after the first traversal succeeded and starts the second traversal only after restoreFiles returned nil; restoreNodeMetadataTo is called by the second traversal's visitors only and files are scheduled by the first only, so no content is written after metadata was applied; (metadata-order) fs.nodeRestoreMetadata changes the owner before it writes extended attributes and before chmod (a later chown would drop security.capability and clear setuid/setgid), writes extended attributes and timestamps before chmod (a read-only mode would block them), and no step is skipped because an earlier one failed — added after a seeded change that moved lchown behind the xattrs; (xattrs-exact) where attributes are restored by name, every successful return of nodeRestoreExtendedAttributes lies behind the listing of the target's attributes, and an attribute is removed only if it is not among those recorded — also for nodes that record none (added after a seeded change that returned early for them, keeping inherited ACL attributes); (content-order, C17) chunk IDs are recorded in read order; (marshal-siblings, C41) names and link targets survive encoding. (sparse-write-offset, shared with C19) the sparse writer puts p[k:] at offset+k for the same k. Not decided: equality of content, modes, times, ownership, xattrs and hard-link grouping after a real round trip on every platform, concurrency settings and pack sizes.",
 		Assumptions: commonAssumptions,
 		Technique:   "static analysis: case coverage of the node-type switches + producer/consumer field coverage over call closures + CFG ordering cuts (go/ssa, go/types)",
 		AllConfigs:  true,
 		Run: func(c *eng.Ctx) {
+			// file content with --sparse: shared with C19
+			ruleSparseWriteOffset(c)
 			ruleNodeTypeExhaustive(c)
 			ruleNodeFieldFlow(c)
 			ruleRestorePasses(c)
@@ -72,7 +74,7 @@ func init() {
 	})
 	register(&Property{
 		ID: "C19",
-		Explanation: "Decides the guards around existing files: (create-file) createFile reports success only through ensureSize (size is made right: truncate / sparse truncate), and an existing object is reused only on the IsRegular()==true and Links<=1 edges — otherwise it is removed and re-created with O_EXCL; (sparse-off-for-existing) in restoreFiles every path on which sparse writing may have been enabled for a file that already existed (file.state != nil) passes `file.sparse = false` before the iteration ends, and that store happens only for existing files; (overwrite-exhaustive) shouldOverwrite, evaluated for each OverwriteBehavior constant: always/if-changed never look at the existing file and never reach the 'unknown overwrite behavior' panic, if-newer/never examine it and are handled, never yields true only for ErrNotExist; the restore callback of withOverwriteCheck runs only on shouldOverwrite==true without error; (reuse-only-if-file-survives) verifyFile hands out a file state (the list of blobs already present, which the restorer then skips) only for regular files, and a state that still needs a restore only for targets with a single hard link — createFile replaces a target with several links by a new empty file, so reusing matches there leaves zeros where the skipped blobs belong; this is the genuine defect found with the seeded-change probe for this property, now fixed; (verify-reads-whole-blob) in verifyFile the hash is taken of the buffer ReadAt filled and only behind ReadAt's nil-error edge (the scratch buffer is reused between blobs and files, a short read leaves stale bytes in it), and the per-blob verdict stored is id.Equal(that hash) (added after a seeded change that hashed before the short-read test); (examined-or-nothing-reused) after a verifyFile error other than 'does not exist' the restore callback gets a non-nil state, which switches sparse writing off — an unreadable existing target was treated as missing and kept its old bytes in the zero runs (genuine defect, demonstrated, fixed); (link-target-only-when-restored) a name enters the hard-link index only inside the callback of withOverwriteCheck, i.e. when it is really restored — with --overwrite never/if-newer the other names were linked to an existing file that had been left untouched (genuine defect, demonstrated, fixed); (restore-errors-propagate) at each call site of the functions that carry file content to the target (restoreFiles, downloadPack, downloadBlobs, writeToFile, createFile, ensureSize, the tree walk, RestoreTo, VerifyFiles …) the error is bound and, from its non-nil edge, no return is reached unless it was returned or handed to the error callback — a restore in which a write failed is not a successful one (added after the mutant sweep). (existing-file-cut-to-size) ensureSize — the only place where a reused target file loses bytes beyond the wanted size, and the only thing that happens to a zero-length file — reports success only after truncateSparse or Truncate succeeded or the file was found to be no longer than createSize (added after a seeded change that returned early for createSize == 0). (failed-files-not-dressed-up) the error hook handed to the file restorer records the location of every file whose content failed, and the second pass applies the snapshot's metadata to a restored file only on the edge on which that record has no entry — an incomplete file had received the snapshot's mtime and size, and a repeated restore with --overwrite if-changed, which trusts the two, skipped it (genuine defect, demonstrated, fixed). (if-changed-reads-content) verifyFile answers 'needs no restore' on equal size and modification time alone when asked to trust the mtime, which --overwrite if-changed does: a target file of the same length and mtime with other content survives a successful restore — documented behaviour, a counterexample to the statement's 'different content', listed as a known finding. Not decided: equality of content and size after restore (runtime values).",
+		Explanation: "Decides the guards around existing files: (create-file) createFile reports success only through ensureSize (size is made right: truncate / sparse truncate), and an existing object is reused only on the IsRegular()==true and Links<=1 edges — otherwise it is removed and re-created with O_EXCL; (sparse-off-for-existing) in restoreFiles every path on which sparse writing may have been enabled for a file that already existed (file.state != nil) passes `file.sparse = false` before the iteration ends, and that store happens only for existing files; (overwrite-exhaustive) shouldOverwrite, evaluated for each OverwriteBehavior constant: always/if-changed never look at the existing file and never reach the 'unknown overwrite behavior' panic, if-newer/never examine it and are handled, never yields true only for ErrNotExist; the restore callback of withOverwriteCheck runs only on shouldOverwrite==true without error; (reuse-only-if-file-survives) verifyFile hands out a file state (the list of blobs already present, which the restorer then skips) only for regular files, and a state that still needs a restore only for targets with a single hard link — createFile replaces a target with several links by a new empty file, so reusing matches there leaves zeros where the skipped blobs belong; this is the genuine defect found with the seeded-change probe for this property, now fixed; (verify-reads-whole-blob) in verifyFile the hash is taken of the buffer ReadAt filled and only behind ReadAt's nil-error edge (the scratch buffer is reused between blobs and files, a short read leaves stale bytes in it), and the per-blob verdict stored is id.Equal(that hash) (added after a seeded change that hashed before the short-read test); (examined-or-nothing-reused) after a verifyFile error other than 'does not exist' the restore callback gets a non-nil state, which switches sparse writing off — an unreadable existing target was treated as missing and kept its old bytes in the zero runs (genuine defect, demonstrated, fixed); (link-target-only-when-restored) a name enters the hard-link index only inside the callback of withOverwriteCheck, i.e. when it is really restored — with --overwrite never/if-newer the other names were linked to an existing file that had been left untouched (genuine defect, demonstrated, fixed); (restore-errors-propagate) at each call site of the functions that carry file content to the target (restoreFiles, downloadPack, downloadBlobs, writeToFile, createFile, ensureSize, the tree walk, RestoreTo, VerifyFiles …) the error is bound and, from its non-nil edge, no return is reached unless it was returned or handed to the error callback — a restore in which a write failed is not a successful one (added after the mutant sweep). (existing-file-cut-to-size) ensureSize — the only place where a reused target file loses bytes beyond the wanted size, and the only thing that happens to a zero-length file — reports success only after truncateSparse or Truncate succeeded or the file was found to be no longer than createSize (added after a seeded change that returned early for createSize == 0). (failed-files-not-dressed-up) the error hook handed to the file restorer records the location of every file whose content failed, and the second pass applies the snapshot's metadata to a restored file only on the edge on which that record has no entry — an incomplete file had received the snapshot's mtime and size, and a repeated restore with --overwrite if-changed, which trusts the two, skipped it (genuine defect, demonstrated, fixed). (if-changed-reads-content) verifyFile answers 'needs no restore' on equal size and modification time alone when asked to trust the mtime, which --overwrite if-changed does: a target file of the same length and mtime with other content survives a successful restore — documented behaviour, a counterexample to the statement's 'different content', listed as a known finding. (sparse-write-offset) partialFile.WriteAt, which leaves out the all-zero prefix of a blob when writing sparse, hands the underlying WriteAt p[k:] together with offset+k for the same k (added after a seeded change that dropped the offset adjustment: the payload was written on top of the hole, sizes and metadata stayed right). Not decided: equality of content and size after restore (runtime values).",
 		Assumptions: commonAssumptions,
 		Technique:   "static analysis: CFG edge cuts + specialised path evaluation per overwrite mode (go/ssa)",
 		Run: func(c *eng.Ctx) {
@@ -80,6 +82,7 @@ func init() {
 			ruleExistingFileCutToSize(c)
 			ruleFailedFilesNotDressedUp(c)
 			ruleIfChangedReadsContent(c)
+			ruleSparseWriteOffset(c)
 			ruleSparseOff(c)
 			ruleOverwriteModes(c)
 			ruleReuseOnlyIfFileSurvives(c)
@@ -89,6 +92,8 @@ func init() {
 			ruleRestoreErrorsPropagate(c)
 		},
 		Controls: []Control{
+			{Name: "sparse-write-at-the-unadvanced-offset", File: "internal/restorer/sparsewrite.go",
+				Old: "		n2, err = f.File.WriteAt(p, offset)", New: "		n2, err = f.File.WriteAt(p, offset-int64(skipped)+int64(n-len(p)-skipped))", Rule: "sparse-write-offset"},
 			{Name: "failed-files-get-snapshot-metadata", File: "internal/restorer/restorer.go",
 				Old: "				if _, failed := failedFiles[location]; failed {", New: "				if _, failed := failedFiles[target]; failed && node.Size == 0 {", Rule: "failed-files-not-dressed-up"},
 			{Name: "longer-file-not-truncated-when-small", File: "internal/restorer/fileswriter.go",
